@@ -2,7 +2,7 @@
    (proofs: Framework/State.v).  In the model a lint call is a function, so determinism is immediate; the content
    is the frame condition, which is what the regenerated static facts and the differential harness establish
    about the code. *)
-From ZL Require Import Framework.State Kernels.KuEku Kernels.Tld Kernels.Calendar Kernels.CalendarFacts.
+From ZL Require Import Framework.State Kernels.KuEku Kernels.Tld Kernels.Calendar Kernels.CalendarFacts Kernels.Dsa Kernels.Validity.
 From Coq Require Import List ZArith Sorting.Permutation.
 Import ListNotations.
 Open Scope Z_scope.
@@ -59,6 +59,32 @@ Theorem c05_civil_date : forall z,
   match civil_of_days z with (y, m, d) => valid_date y m d /\ days_from_civil y m d = z end.
 Proof. exact civil_date. Qed.
 
+(* read-only linting, for the lint where it was seeded broken (round 10): the subgroup lint may reduce Y modulo P for
+   its own purposes - its verdict depends on the residue only - but the neighbouring representation lint is about Y
+   itself, so reducing Y IN the key changes that lint's verdict on some well-formed key *)
+Theorem c05_dsa_subgroup_residue : forall k, well_formed k ->
+  l_subgroup (mkDsa (dP k) (dQ k) (dG k) (dY k mod dP k)) = l_subgroup k.
+Proof. exact subgroup_residue. Qed.
+
+Theorem c05_dsa_write_would_show : exists k, well_formed k /\
+  l_unique_rep k = 6 /\ l_unique_rep (mkDsa (dP k) (dQ k) (dG k) (dY k mod dP k)) = 3.
+Proof. exact reduce_changes_neighbour. Qed.
+
+(* the six validity-period lints (Kernels/Validity.v) are functions of the two instants; their limits, for every
+   certificate: 825 days is 825 * 86400 seconds; m months is the same day of the month and time of day m months on (the
+   day counted on where the month is shorter); 398 days (inclusive period) implies the 397-day warning *)
+Theorem c05_validity_825_days : forall nb na, l_825_days nb na = 6 <-> na > nb + 825 * 86400.
+Proof. exact l_825_exact. Qed.
+
+Theorem c05_validity_months : forall m nb na,
+  match civil_of_days (day_of nb) with
+  | (y, mo, d) => l_months m nb na = 6 <-> na > instant_of (y + (mo - 1 + m) / 12) ((mo - 1 + m) mod 12 + 1) d (tod nb)
+  end.
+Proof. exact l_months_exact. Qed.
+
+Theorem c05_validity_398_397 : forall nb na, l_398 nb na = 6 -> l_397 nb na = 5.
+Proof. exact error_398_implies_warn_397. Qed.
+
 Print Assumptions c05_history_independent.
 Print Assumptions c05_crl_subscriber_limit.
 Print Assumptions c05_crl_ca_limit.
@@ -67,3 +93,8 @@ Print Assumptions c05_repeat_same.
 Print Assumptions c05_ku_eku_table_order.
 Print Assumptions c05_ku_eku_order.
 Print Assumptions c05_ku_eku_two.
+Print Assumptions c05_dsa_subgroup_residue.
+Print Assumptions c05_dsa_write_would_show.
+Print Assumptions c05_validity_825_days.
+Print Assumptions c05_validity_months.
+Print Assumptions c05_validity_398_397.
